@@ -83,6 +83,7 @@ def node_to_dot(
 
         attr_str = _attr_str(attr_def, node_mapper, node)
         yield f"{indent}{_key(node)}{attr_str}"
+        used_keys.add(_key(node))  # a clone inside the branch must not define it again
 
     for n in node:
         if unique_nodes:
